@@ -769,9 +769,25 @@ def to_hashable(  # noqa: C901, PLR0911, PLR0912
     # Handle pandas Series and DataFrames
     if "pandas" in sys.modules:
         if isinstance(obj, sys.modules["pandas"].Series):
-            return (m, tp, (obj.name, to_hashable(obj.to_dict(), fallback_to_pickle)))
+            data = (
+                obj.name,
+                to_hashable(obj.to_dict(), fallback_to_pickle),
+                # `to_dict()` loses the row order and rows with a duplicated label
+                to_hashable(obj.index.tolist(), fallback_to_pickle),
+                to_hashable(obj.tolist(), fallback_to_pickle),
+            )
+            return (m, tp, data)
         if isinstance(obj, sys.modules["pandas"].DataFrame):
-            return (m, tp, to_hashable(obj.to_dict("list"), fallback_to_pickle))
+            # `to_dict("list")` loses the index, the column order and duplicated columns
+            layout = (
+                to_hashable(obj.columns.tolist(), fallback_to_pickle),
+                to_hashable(obj.index.tolist(), fallback_to_pickle),
+                tuple(
+                    to_hashable(obj.iloc[:, i].tolist(), fallback_to_pickle)
+                    for i in range(obj.shape[1])
+                ),
+            )
+            return (m, tp, to_hashable(obj.to_dict("list"), fallback_to_pickle), layout)
 
     if fallback_to_pickle:
         try:
